@@ -355,6 +355,35 @@ func (g *gen) grammar(repo string) string {
 	if len(bin) == 0 {
 		g.fail("parser.go.y: no binary operator rules found")
 	}
+	// every production in order (goyacc numbers them from 1; 0 is $accept), with the class of its action
+	var prods []string
+	for _, a := range alts {
+		var rhs []string
+		for _, y := range a.syms {
+			rhs = append(rhs, coqStr(y.text))
+		}
+		kind := "other"
+		act := strings.Join(strings.Fields(a.act), " ")
+		switch {
+		case a.act == "":
+			kind = "pass" // no action: $$ = $1
+		case len(a.syms) == 3 && a.syms[0].text == a.lhs && a.syms[2].text == a.lhs && opRe.MatchString(a.act) &&
+			strings.Contains(a.act, "Left: $1") && strings.Contains(a.act, "Right: $3") && !strings.Contains(a.act, "Patterns"):
+			kind = "bin:" + opRe.FindStringSubmatch(a.act)[1]
+		case act == "{ $$ = &Term{Type: TermTypeQuery, Query: $2.(*Query)} }":
+			kind = "paren"
+		case act == "{ $$ = &Term{Type: TermTypeFunc, Func: &Func{Name: $1}} }":
+			kind = "func"
+		case act == "{ $$ = &Query{Term: $1.(*Term)} }":
+			kind = "wrapterm"
+		case act == "{ query := $3.(*Query) query.Meta = $1.(*ConstObject) query.Imports = $2.([]*Import) yylex.(*lexer).result = query }":
+			kind = "program"
+		case act == "{ $$ = (*ConstObject)(nil) }" || act == "{ $$ = []*Import(nil) }":
+			kind = "nil"
+		}
+		prods = append(prods, fmt.Sprintf("(%s, [%s], %s)", coqStr(a.lhs), strings.Join(rhs, "; "), coqStr(kind)))
+	}
+	fmt.Fprintf(&sb, "Definition productions : list (string * list string * string) :=\n  [%s].\n\n", strings.Join(prods, ";\n   "))
 	fmt.Fprintf(&sb, "Definition bin_rules : list (string * string * string) :=\n  [%s].\n\n", strings.Join(bin, ";\n   "))
 	fmt.Fprintf(&sb, "Definition unary_rules : list (string * string) :=\n  [%s].\n\n", strings.Join(un, "; "))
 	fmt.Fprintf(&sb, "Definition suffix_toks : list string :=\n  [%s].\n\n", strings.Join(suf, "; "))
@@ -554,14 +583,47 @@ func (g *gen) operators(repo string) string {
 	return fmt.Sprintf("Definition op_strings : list (string * string) :=\n  [%s].\n", strings.Join(ops, "; "))
 }
 
+func (g *gen) toknums(repo string) string {
+	fset := token.NewFileSet()
+	f, err := parser.ParseFile(fset, filepath.Join(repo, "parser.go"), nil, 0)
+	if err != nil {
+		g.fail("%v", err)
+		return ""
+	}
+	var xs []string
+	for _, d := range f.Decls {
+		gd, ok := d.(*ast.GenDecl)
+		if !ok || gd.Tok != token.CONST {
+			continue
+		}
+		for _, sp := range gd.Specs {
+			vs := sp.(*ast.ValueSpec)
+			if len(vs.Names) != 1 || len(vs.Values) != 1 || !strings.HasPrefix(vs.Names[0].Name, "tok") {
+				continue
+			}
+			l, ok := vs.Values[0].(*ast.BasicLit)
+			if !ok || l.Kind != token.INT {
+				g.fail("parser.go: constant %s is not an integer literal", vs.Names[0].Name)
+				continue
+			}
+			xs = append(xs, fmt.Sprintf("(%s, %s%%Z)", coqStr(vs.Names[0].Name), l.Value))
+		}
+	}
+	if len(xs) == 0 {
+		g.fail("parser.go: no tok constants found")
+	}
+	return fmt.Sprintf("\nDefinition tok_num : list (string * Z) :=\n  [%s].\n", strings.Join(xs, "; "))
+}
+
 func genGrammar(repo string) (string, []string) {
 	g := &gen{}
 	var sb strings.Builder
 	sb.WriteString("(* GENERATED by tools/go2coq/grammar from parser.go.y, lexer.go and operator.go of the current /repo tree. Do not edit. *)\n")
-	sb.WriteString("From Coq Require Import List String.\nFrom Verif Require Import c09.GrammarTypes.\nImport ListNotations.\nLocal Open Scope string_scope.\n\n")
+	sb.WriteString("From Coq Require Import List String ZArith.\nFrom Verif Require Import c09.GrammarTypes.\nImport ListNotations.\nLocal Open Scope string_scope.\n\n")
 	sb.WriteString(g.grammar(repo))
 	sb.WriteString(g.lexer(repo))
 	sb.WriteString(g.operators(repo))
+	sb.WriteString(g.toknums(repo))
 	return sb.String(), g.errs
 }
 
